@@ -938,6 +938,33 @@ Spec == Init /\ [][Next]_vars
 \* every live table of the model is coherent, after every history
 ModelCoherent == \A s \in DOMAIN heap : C05_Coherent(heap[s])
 
+(* The listed properties once more, as properties of the MACHINE (checked by TLC in every generation run, next to   *)
+(* the clause-by-clause Assert above): they speak about heap and hist only, not about recorded events.               *)
+LastStep == hist'[Len(hist')]
+AlwaysInplaceCalls == {"add_metadata", "del_metadata"}
+ReadOnlyCalls == {"read", "probe", "eq", "eqx", "eq3", "summary", "validate", "mapfile"}
+\* slots a step may write: its result slot; its receiver only when asked to work in place
+Writes(st) == {st.res} \cup (IF st.call \in AlwaysInplaceCalls \/ ("inplace" \in DOMAIN st.args /\ st.args.inplace)
+                             THEN {st.recv} ELSE {})
+\* C07: every table a step does not name as written is exactly what it was
+ModelFrame == [][\A s \in DOMAIN heap : s \notin Writes(LastStep) => (s \in DOMAIN heap' /\ heap'[s] = heap[s])]_vars
+\* C16 / C05: observing never changes anything
+ModelReadsChangeNothing == [][LastStep.call \in ReadOnlyCalls => heap' = heap]_vars
+\* tables are never destroyed; the history grows by exactly the step taken
+ModelSlotsOnlyGrow == [][DOMAIN heap \subseteq DOMAIN heap' /\ Len(hist') = Len(hist) + 1]_vars
+\* C16: content equality is an equivalence on every heap reached
+ModelEqIsEquivalence ==
+  \A a \in DOMAIN heap : \A b \in DOMAIN heap : \A c \in DOMAIN heap :
+     /\ EqContent(heap[a], heap[a])
+     /\ EqContent(heap[a], heap[b]) => EqContent(heap[b], heap[a])
+     /\ (EqContent(heap[a], heap[b]) /\ EqContent(heap[b], heap[c])) => EqContent(heap[a], heap[c])
+\* C05 (shape part) and the value domain: every live table is well shaped over normalised rationals
+ModelTypeOK ==
+  \A s \in DOMAIN heap :
+     LET t == heap[s] IN
+     /\ Shaped(t)
+     /\ \A i \in 1..Len(t.mat) : \A j \in 1..Len(t.mat[i]) : t.mat[i][j] = Norm(t.mat[i][j])
+
 \* behaviour export: one JSON line per complete behaviour
 Emit == (Len(hist) = Depth) =>
           PrintT(ToJson([tag |-> init.tag, init |-> init.heap, builds |-> init.builds, gmd |-> init.gmd, steps |-> hist]))
